@@ -82,7 +82,8 @@ class Parser:  # pylint: disable=too-many-public-methods
     def assignment(self):
         expr = self.tilde()
         if self.match("EQUAL"):
-            right = self.addition()
+            # The value can be a comparison, as in 'f(x, flag=z > 0)'
+            right = self.comparison()
             if isinstance(expr, Variable):
                 return Assign(expr, right)
             else:
